@@ -89,7 +89,7 @@ theorem rangeArgs_one (a0 a1 b1 ta tb : List Char) (va vb : Rat)
     rfl
   rw [hst]
   simp only []
-  rw [(nextIs_opt b1 ')' [] ob1 paren_close_graph.1 paren_close_graph.2).1]
+  rw [closeOk_opt b1 ob1]
   simp only [Bool.not_true, Bool.false_eq_true, ↓reduceIte, rangeMake]
 
 /-- acceptance of the range description with an explicit step -/
@@ -111,7 +111,7 @@ theorem rangeArgs_two (a0 a1 b1 a2 b2 ta tb ts : List Char) (va vb vs : Rat)
     rw [cdouble_opt a2 _ vs _ oa2 (cdouble_strict ts (b2 ++ [')']) vs h3 (stops_opt b2 ')' [] ob2 close_stops))]
   rw [hst]
   simp only []
-  rw [(nextIs_opt b2 ')' [] ob2 paren_close_graph.1 paren_close_graph.2).1]
+  rw [closeOk_opt b2 ob2]
   simp only [Bool.not_true, Bool.false_eq_true, ↓reduceIte, rangeMake]
 
 /-- a recognised `range(…)` description reaches the checks of `_mpt_iterator_range` with its bounds and step -/
